@@ -8,6 +8,7 @@ import re
 from ..cfg import cfg_of
 from ..model import AnalysisError, call_name, calls_in, dotted, norm, walk_no_nested
 from .. import callgraph, rules
+from .. import conds as cnd
 
 META = {
     "explanation": "Path rules on SecsHandler._handle_stream_function/_handle_unknown_functions (one reply per path, "
@@ -58,9 +59,8 @@ def check_handle_stream_function(ctx):
     ok = len(unk) == 1
     ctx.ob("C08.P1", q, ok, "a message without callback goes to _handle_unknown_functions" if ok else f"{len(unk)} calls of _handle_unknown_functions", key="unknown-call", where=f.where)
     if ok:
-        conds = [(norm(t), v) for t, v in cfg.dominating_conditions(unk[0])]
-        good = (f"{idxvar} not in self._callback_handler", True) in conds or (f"{idxvar} in self._callback_handler", False) in conds
-        ctx.ob("C08.P1", q, good, "unknown = the callback name is not in the callback handler" if good else f"unknown-function branch guard is {conds}", key="unknown-guard", where=f.where)
+        good = cnd.holds(cfg, unk[0], f"{idxvar} not in self._callback_handler")
+        ctx.ob("C08.P1", q, good, "unknown = the callback name is not in the callback handler" if good else f"unknown-function branch guard is: {cnd.describe(cfg, unk[0])}", key="unknown-guard", where=f.where)
         uc = next(c for c in unk[0].calls if call_name(c) == "self._handle_unknown_functions")
         ok2 = [norm(a) for a in uc.args] == [param]
         ctx.ob("C08.P1", q, ok2, "the unknown-function handler receives the message" if ok2 else f"`{norm(uc)}`", key="unknown-arg", where=f.where)
@@ -87,9 +87,8 @@ def check_handle_stream_function(ctx):
     ctx.ob("C08.P1", q, ok, "the callback's result is what is sent" if ok else f"normal-path sends: {[norm(c) for _, c in normal_sends]} (expected one send of the callback result)", key="sends-result", where=f.where)
     if ok:
         n = normal_sends[0][0]
-        conds = [(norm(t), v) for t, v in cfg.dominating_conditions(n)]
-        ok2 = (f"{resvar} is not None", True) in conds or (f"{resvar} is None", False) in conds
-        ctx.ob("C08.P1", q, ok2, "a reply is sent iff the callback returned one" if ok2 else f"guard of the reply is {conds}", key="result-guard", where=f.where)
+        ok2 = cnd.holds(cfg, n, f"{resvar} is not None")
+        ctx.ob("C08.P1", q, ok2, "a reply is sent iff the callback returned one" if ok2 else f"guard of the reply is: {cnd.describe(cfg, n)}", key="result-guard", where=f.where)
         cnt = cfg.count_on_paths(lambda x: x is n, CB, cfg.exit, no_exc=True)
         ok3 = cnt is not None and cnt[1] == 1
         ctx.ob("C08.P1", q, ok3, "at most one reply on the normal path" if ok3 else f"replies per normal path: {cnt}", key="one-reply", where=f.where)
@@ -101,8 +100,7 @@ def check_handle_stream_function(ctx):
         ctx.ob("C08.P1", q, ok, "the abort is function 0 of the request's stream" if ok else f"abort `{norm(a0)}` is not stream_function(message.header.stream, 0)()", key="abort-class", where=f.where)
     # P2: W-bit
     for n, c in normal_sends:  # the property speaks about messages handled without error; the abort path is not constrained
-        conds = [(norm(t), v) for t, v in cfg.dominating_conditions(n)]
-        ok = any("require_response" in t and v for t, v in conds)
+        ok = any("require_response" in t and v for t, v in cnd.facts(cfg, n))
         ctx.ob("C08.P2", q, ok, "the reply is sent only for a primary with W-bit" if ok else
                "the reply is sent without looking at the W-bit: a primary that does not expect a reply is answered anyway", key="wbit " + ("abort" if (n, c) in abort_sends else "reply"), where=f.where)
     # nothing replies outside these (e.g. a second unconditional send)
@@ -123,9 +121,8 @@ def check_handle_stream_function(ctx):
         body_ok = cls_ok and len(a0.args) == 1 and norm(a0.args[0]) == f"{up}.header.encode()"
         sys_ok = len(c.args) == 2 and norm(c.args[1]) == _sys_arg(up)
         ctx.ob("C08.P1", u.qualname, cls_ok and body_ok and sys_ok, "unknown function => S9F5 carrying the offending header, same system bytes" if (cls_ok and body_ok and sys_ok) else f"`{norm(c)}` is not S9F5(message.header.encode()) with message.header.system", key="s9f5", where=u.where)
-        conds = [(norm(t), v) for t, v in ucfg.dominating_conditions(n)]
-        ok = (f"{up}.header.require_response", True) in conds
-        ctx.ob("C08.P1", u.qualname, ok, "S9F5 is sent only when the W-bit is set" if ok else f"S9F5 guard is {conds}", key="s9f5-wbit", where=u.where)
+        ok = cnd.holds(ucfg, n, f"{up}.header.require_response")
+        ctx.ob("C08.P1", u.qualname, ok, "S9F5 is sent only when the W-bit is set" if ok else f"S9F5 is sent under: {cnd.describe(ucfg, n)}", key="s9f5-wbit", where=u.where)
     # SecsHandler._on_message_received hands the message on unchanged
     m = repo.method("SecsHandler", "_on_message_received", inherited=False)
     calls = [c for c in calls_in(m.node) if call_name(c) == "self._handle_stream_function"]
